@@ -2,7 +2,8 @@
 use crate::jsongen::{gen_string, TRICKY};
 use crate::rng::Rng;
 use chrono::{DateTime, TimeZone, Utc};
-use in_toto::crypto::{HashAlgorithm, HashValue, KeyType, PrivateKey, PublicKey, SignatureScheme};
+use in_toto::crypto::{HashAlgorithm, HashValue, KeyId, KeyType, PrivateKey, PublicKey, SignatureScheme};
+use std::str::FromStr;
 use in_toto::models::byproducts::ByProducts;
 use in_toto::models::inspection::Inspection;
 use in_toto::models::rule::{Artifact, ArtifactRule};
@@ -123,7 +124,7 @@ pub fn gen_artifacts(r: &mut Rng) -> BTreeMap<VirtualTargetPath, TargetDescripti
     let n = r.below(4);
     let mut m = BTreeMap::new();
     for _ in 0..n {
-        m.insert(VirtualTargetPath::new(gen_path(r)).unwrap(), gen_digests(r));
+        m.insert({ let p = gen_path(r); VirtualTargetPath::new(p.clone()).unwrap_or_else(|_| VirtualTargetPath::from(p.as_str())) }, gen_digests(r));
     }
     m
 }
@@ -196,7 +197,7 @@ pub fn gen_pattern(r: &mut Rng) -> VirtualTargetPath {
         4 => gen_path(r),
         _ => r.pick(&["a**b", "[", "**", "[!a]", "***"]).to_string(),
     };
-    VirtualTargetPath::new(s).unwrap()
+    VirtualTargetPath::new(s.clone()).unwrap_or_else(|_| VirtualTargetPath::from(s.as_str()))
 }
 
 pub fn gen_rule(r: &mut Rng, steps: &[String]) -> ArtifactRule {
@@ -267,6 +268,10 @@ pub fn key_variant(r: &mut Rng, k: &PublicKey) -> PublicKey {
     v.unwrap_or_else(|| k.clone())
 }
 
+fn hex_of(b: &[u8]) -> String {
+    b.iter().map(|x| format!("{:02x}", x)).collect()
+}
+
 pub fn gen_layout(r: &mut Rng, pool: &[KeyInfo]) -> LayoutMetadata {
     let nsteps = r.below(4);
     let names: Vec<String> = (0..nsteps)
@@ -301,6 +306,12 @@ pub fn gen_layout(r: &mut Rng, pool: &[KeyInfo]) -> LayoutMetadata {
             if r.chance(1, 2) {
                 s = s.add_key(id.clone());
             }
+        }
+        // a functionary known by key id only: a key of the pool that the key table does not hold, or an
+        // id no key of the pool has
+        if r.chance(1, 4) {
+            let foreign = if r.chance(1, 2) { r.pick(pool).public().key_id().clone() } else { KeyId::from_str(&hex_of(&r.bytes(32))).unwrap() };
+            s = s.add_key(foreign);
         }
         steps.push(s);
     }
